@@ -613,13 +613,216 @@ def check_parcel_classes(chk, td):
             chk.case(("parcel", name, cs, cl), True, sample=case)
 
 
+# ========================================================================================
+#  C. savedir / loaddir sessions
+# ========================================================================================
+
+POOL_KINDS = ["TimeAxis", "DFunction", "Operator", "Hamiltonian", "Molecule", "CorrelationFunction"]
+
+
+def pool_object(kind, n):
+    import numpy
+    import quantarhei as qr
+    from quantarhei.qm.hilbertspace.operators import Operator
+    if kind == "TimeAxis":
+        return qr.TimeAxis(0.0, 5 + n, 1.0)
+    if kind == "DFunction":
+        return qr.DFunction(qr.TimeAxis(0.0, 6, 1.0), numpy.arange(6.0) * (n + 1) + 1j * n)
+    if kind == "Operator":
+        return Operator(data=numpy.array([[float(n), 1.0], [2.0, 3.0]]))
+    with qr.energy_units("1/cm"):
+        if kind == "Hamiltonian":
+            return qr.Hamiltonian(data=[[0.0, 0.0], [0.0, 10000.0 + n]])
+        if kind == "Molecule":
+            return qr.Molecule([0.0, 12000.0 + n])
+        return qr.CorrelationFunction(qr.TimeAxis(0.0, 40, 1.0), dict(ftype="OverdampedBrownian", reorg=20 + n, cortime=100, T=300))
+
+
+def gen_session(r):
+    nobj = r.choice([2, 3, 4, 5])
+    objs = [[r.choice(POOL_KINDS), i] for i in range(nobj)]
+    ndir = r.choice([1, 2, 2, 3, 3])
+    style = r.choice(["auto", "auto", "explicit", "mixed", "mixed", "wild"])
+    ops = []
+    used = {d: [] for d in range(ndir)}
+    for _ in range(r.randint(3, 10)):
+        d = r.randrange(ndir)
+        un = r.choice([None, None, "1/cm", "eV"])
+        if r.random() < 0.75:
+            if style == "auto":
+                tag = None
+            elif style == "explicit":
+                tag = r.choice([r.randint(1, 6), ["s", r.randint(0, 2)]]) if not used[d] or r.random() < 0.8 else r.choice(used[d])
+            elif style == "mixed":
+                # explicit integer tags only above everything used so far: automatic tags cannot collide
+                top = max([t for t in used[d] if isinstance(t, int)] + [0])
+                tag = None if r.random() < 0.5 else top + r.randint(1, 3)
+            else:
+                tag = r.choice([None, None, r.randint(1, 5), ["s", r.randint(0, 1)]])
+            ops.append(["savedir", r.randrange(nobj), d, tag, un])
+            if tag is not None:
+                used[d].append(tag)
+            else:
+                ints = [t for t in used[d] if isinstance(t, int)]
+                used[d].append((used[d][-1] + 1) if used[d] and isinstance(used[d][-1], int) else (1 if not used[d] else None))
+                if used[d][-1] is None:
+                    used[d].pop()
+        else:
+            ops.append(["loaddir", r.randrange(nobj), d, un])
+    for d in range(ndir):
+        ops.append(["loaddir", r.randrange(nobj), d, None])
+    return {"session": {"objs": objs, "ops": ops}}
+
+
+SESSION_CORPUS = [
+    # two fresh directories in one session, same and different objects, automatic tags
+    {"session": {"objs": [["TimeAxis", 0], ["Hamiltonian", 1], ["DFunction", 2]],
+                 "ops": [["savedir", 0, 0, None, None], ["savedir", 1, 0, None, "1/cm"], ["savedir", 0, 1, None, None],
+                         ["savedir", 2, 1, None, "eV"], ["savedir", 1, 2, 7, None], ["savedir", 2, 0, None, None],
+                         ["loaddir", 0, 0, None], ["loaddir", 1, 1, "1/cm"], ["loaddir", 2, 2, None]]}},
+    # automatic tag after tags given out of order; automatic tag after a string tag
+    {"session": {"objs": [["TimeAxis", 0], ["TimeAxis", 1], ["Operator", 2], ["Molecule", 3]],
+                 "ops": [["savedir", 0, 0, None, None], ["savedir", 1, 0, 3, None], ["savedir", 2, 0, 2, None],
+                         ["savedir", 3, 0, None, None], ["loaddir", 0, 0, None],
+                         ["savedir", 0, 1, ["s", 0], None], ["savedir", 1, 1, None, None], ["loaddir", 0, 1, None]]}},
+]
+
+
+def obj_token(o):
+    snap = walk.snapshot({"o": o})
+    items = sorted((k, v) for k, v in snap.items() if ".hashes" not in k)
+    import hashlib
+    return hashlib.sha1(repr(items).encode()).hexdigest()
+
+
+def tag_py(t):
+    return ("s%d" % t[1]) if isinstance(t, list) else t
+
+
+def tag_coq(t):
+    if isinstance(t, str):
+        return "(TStr %d%%nat)" % int(t[1:])
+    return "(TInt %s)" % cm.zlit(int(t))
+
+
+def run_session(c, td):
+    """-> (outputs for Coq, violations [(sig, what)])"""
+    import quantarhei as qr
+    ses = c["session"]
+    reset_manager()
+    root = tempfile.mkdtemp(prefix="ses_", dir=td)
+    pool = [pool_object(k, n) for k, n in ses["objs"]]
+    ident = {}
+    for i, o in enumerate(pool):
+        ident.setdefault(obj_token(o), i)
+    canon = [ident[obj_token(o)] for o in pool]           # equal-content objects are one object
+    outs, viol = [], []
+    ideal = {}                                             # dir -> {tag: object index}: what was saved there
+    lost = set()
+
+    def read_table(dpath):
+        hf = os.path.join(dpath, "_hashes_.qrp")
+        return qr.load_parcel(hf) if os.path.exists(hf) else None
+
+    for k, op in enumerate(ses["ops"]):
+        dpath = os.path.join(root, "dir%d" % op[2])
+        un = op[4] if op[0] == "savedir" else op[3]
+        ctx = qr.energy_units(un) if un else contextlib.nullcontext()
+        if op[0] == "savedir":
+            before = read_table(dpath)
+            existed = os.path.isdir(dpath)
+            try:
+                with ctx:
+                    pool[op[1]].savedir(dpath, tag=None if op[3] is None else tag_py(op[3]))
+            except Exception as e:
+                outs.append("DErr")
+                if op[3] is None and before and isinstance(list(before.keys())[-1], str) and isinstance(e, TypeError):
+                    viol.append(("savedir:auto_tag_after_string_tag", "op %d: savedir without tag into a directory whose last tag is the "
+                                 "string %r raised %r: the object is not saved" % (k, list(before.keys())[-1], e)))
+                else:
+                    viol.append(("savedir:raised", "op %d %r raised %r" % (k, op, e)))
+                continue
+            after = read_table(dpath) or {}
+            new = [t for t in after if before is None or t not in before or before[t] != after[t]]
+            if len(new) != 1:
+                viol.append(("savedir:table", "op %d %r: the table of the directory changed in %d entries (%r -> %r)"
+                             % (k, op, len(new), before and list(before), list(after))))
+                outs.append("DErr")
+                continue
+            t = new[0]
+            outs.append("(DSaved %s)" % tag_coq(t))
+            dd = ideal.setdefault(op[2], {})
+            if op[3] is None and t in dd:
+                viol.append(("savedir:auto_tag_overwrites_earlier_object", "op %d: savedir without tag chose tag %r, which already holds an "
+                             "object saved earlier in this directory (tags so far %r): that object is lost" % (k, t, list(dd))))
+                lost.add((op[2], t))
+            if not existed and (len(after) != 1):
+                viol.append(("savedir:fresh_directory_table", "op %d: the table of the new directory dir%d lists %d entries %r"
+                             % (k, op[2], len(after), list(after))))
+            missing = [h for h in after.values() if not os.path.exists(os.path.join(dpath, h + ".qrp"))]
+            if missing:
+                viol.append(("savedir:table_lists_foreign_files", "op %d: the table of dir%d lists %d files that are not in that directory"
+                             % (k, op[2], len(missing))))
+            dd[t] = canon[op[1]]
+        else:
+            try:
+                with ctx:
+                    res = pool[op[1]].loaddir(dpath)
+            except Exception as e:
+                outs.append("DErr")
+                if os.path.isdir(dpath):
+                    viol.append(("savedir:loaddir_raised", "op %d: loaddir of dir%d (objects were saved there) raised %s: %s"
+                                 % (k, op[2], type(e).__name__, str(e)[:120])))
+                continue
+            items = []
+            for t, o in res.items():
+                i = ident.get(obj_token(o), None)
+                if i is None:
+                    viol.append(("savedir:values_changed", "op %d: the object loaded under tag %r from dir%d equals none of the saved objects"
+                                 % (k, t, op[2])))
+                    i = 999
+                items.append("(%s, %d%%nat)" % (tag_coq(t), i))
+            outs.append("(DLoaded %s)" % cm.clist(items))
+            want = ideal.get(op[2], {})
+            got = {t: ident.get(obj_token(o)) for t, o in res.items()}
+            if got != want and not any((op[2], t) in lost for t in want):
+                viol.append(("savedir:loaddir_content", "op %d: loaddir of dir%d returns %r, saved there: %r" % (k, op[2], got, want)))
+    reset_manager()
+    shutil.rmtree(root, ignore_errors=True)
+    return outs, viol
+
+
+def coq_session(c, outs):
+    ses = c["session"]
+    # equal-content pool objects are one object (as in run_session)
+    toks = {}
+    canon = []
+    for k, n in ses["objs"]:
+        canon.append(toks.setdefault((k, n), len(toks) and max(toks.values()) + 1 if (k, n) not in toks else 0))
+    canon = []
+    seen = {}
+    for i, (k, n) in enumerate(ses["objs"]):
+        seen.setdefault((k, n), i)
+        canon.append(seen[(k, n)])
+    ops = []
+    for op in ses["ops"]:
+        if op[0] == "savedir":
+            tg = "None" if op[3] is None else "(Some %s)" % tag_coq(tag_py(op[3]))
+            ops.append("SaveDir %d%%nat %s %d%%nat" % (op[2], tg, canon[op[1]]))
+        else:
+            ops.append("LoadDir %d%%nat" % op[2])
+    return "(%s, %s)" % (cm.clist(ops), cm.clist(outs))
+
+
 def main():
     import numpy
     chk = cm.Check(PID, args.tier)
     chk.rule = ("A: exhaustive matrix {dat,txt,npy,npz,mat} x {real,complex} x {axis,no axis} x 7 shapes (3 regular, 4 with an index of "
                 "length one), random Gaussian-integer values, through DataSaveable (and MatrixData for its formats); random float64 through "
                 "text; AbsSpectrum with units-managed axis in 3 unit contexts.  B: random save/load/enter/leave/read programs on Operator "
-                "objects (exact arithmetic); 21 Saveable classes x {none, units, basis} context at save x at load.  All cases non-trivial; "
+"objects (exact arithmetic); 21 Saveable classes x {none, units, basis} context at save x at load.  C: random savedir/loaddir "
+                "sessions (1-3 directories, fresh and existing, automatic / integer / string tags, 6 classes, unit contexts) compared with "
+                "Model.C18.drun.  All cases non-trivial; "
                 "distinct by content")
     chk.assumptions = [
         "file writers/readers (dill, numpy.save/savez_compressed/savetxt/loadtxt, scipy.io.savemat/loadmat) are oracles: identities on the "
@@ -689,6 +892,31 @@ def main():
                                "From Coq Require Import List Bool Arith ZArith.\nImport ListNotations.\n"
                                "From QV Require Import Base.Alg Base.Mat Base.Util Model.C04 Model.C04x Model.C18.\nOpen Scope Z_scope.\n"
                                "Definition cs : list pcase := %s.\nEval vm_compute in (bad pcase_agrees cs).\n" % cm.clist(pitems[k:k + CH])))
+        if replay is None or "session" in replay:
+            nses = 150 if args.tier == "quick" else 1500
+            sessions = [replay] if replay else (SESSION_CORPUS + [gen_session(r) for _ in range(nses)])
+            sitems, smeta = [], []
+            for c in sessions:
+                try:
+                    with contextlib.redirect_stdout(io.StringIO()):
+                        outs, viol = run_session(c, td)
+                except Exception as e:
+                    chk.violation("savedir:harness_exception", "session raised %r %s" % (e, traceback.format_exc()[-500:]), "monitor", c)
+                    continue
+                for sig, what in viol:
+                    chk.violation(sig, "savedir/loaddir session %s: %s" % (json.dumps(c["session"]["ops"])[:400], what), "monitor", c)
+                sitems.append(coq_session(c, outs))
+                smeta.append(c)
+                chk.count("session:dirs=%d" % (1 + max(op[2] for op in c["session"]["ops"])))
+                chk.count("session_ops", len(c["session"]["ops"]))
+                chk.case(("session", json.dumps(c)), True, sample={"session": c["session"]["ops"][:8], "out": outs[:8]})
+            CH = max(1, (len(sitems) + 5) // 6)
+            for k in range(0, len(sitems), CH):
+                shards.append(("session", k, CH, smeta,
+                               "From Coq Require Import List Bool Arith ZArith.\nImport ListNotations.\n"
+                               "From QV Require Import Base.Util Model.C18.\nOpen Scope Z_scope.\n"
+                               "Definition cs : list dcase := %s.\nEval vm_compute in (bad dcase_agrees cs).\n"
+                               "Eval vm_compute in (bad dcase_pinned_agrees cs).\n" % cm.clist(sitems[k:k + CH])))
         results = cm.coq_eval(PID, [s[4] for s in shards]) if shards else []
         for (kind, k, CH, meta, _), (rc, out) in zip(shards, results):
             if rc != 0:
@@ -698,13 +926,16 @@ def main():
             badl = cm.parse_natlist(vals[0])
             chk.corr["cases"] += min(CH, len(meta) - k)
             chk.corr["disagreements"] += len(badl)
-            if kind == "data":
+            if kind in ("data", "session"):
                 bad_old = cm.parse_natlist(vals[1])
                 chk.corr["agree_with_pinned_variant_only"] = chk.corr.get("agree_with_pinned_variant_only", 0) + \
                     len([i for i in badl if i not in bad_old])
             for i in badl[:3]:
                 c = meta[k + i]
-                if kind == "data":
+                if kind == "session":
+                    chk.violation("correspondence:savedir_session", "savedir/loaddir outcomes differ from Model.C18.drun (TagRepaired) on session %s"
+                                  % json.dumps(c["session"]["ops"])[:800], "correspondence", c, found_input=False)
+                elif kind == "data":
                     chk.violation("correspondence:export_import", "save_data/load_data differs from Model.C18.export_import (repaired) on %s"
                                   % json.dumps({q: c[q] for q in ("ext", "cplx", "shape", "axis")}), "correspondence", {"data": c}, found_input=False)
                 else:
